@@ -98,7 +98,8 @@ def run(seed, args):
     workers = 4
     results = []
     with concurrent.futures.ThreadPoolExecutor(par) as ex:
-        futs = [ex.submit(run_one, m, seed, True, workers) for m in ms]
+        # benign controls need not pass the repository's tests to show that a check stays quiet
+        futs = [ex.submit(run_one, m, seed, m["expect"] != "quiet", workers) for m in ms]
         for f in concurrent.futures.as_completed(futs):
             r = f.result()
             results.append(r)
